@@ -189,6 +189,8 @@ def expect_dop(dop, v, siblings, sib_params, trig):
             hit = next((c for c in dop.cases if c.name == sel), None)
             if hit is None and not (dop.default and dop.default[0] == sel):
                 return ("\x00requested-unknown-case:" + sel, None)      # can never be what decode returns
+        elif sel is None:
+            hit = None                  # None selects the default case (rejected if there is none)
         else:
             raise Unpredictable("mux selector")
         if hit is None and dop.default is None:
@@ -511,6 +513,8 @@ def dop_mutants(rng, dop, v, params=None, value=None, depth=0):
             elif isinstance(sel, int):
                 hit = next((c for c in dop.cases if c.lower <= sel <= c.upper), None)
                 st = hit.struct if hit else (dop.default[1] if dop.default else None)
+            elif sel is None and dop.default:
+                st = dop.default[1]
             if st is not None:
                 for tag, x in params_mutants(rng, st.params, cv, depth + 1):
                     yield "case/" + tag, (sel, x)
